@@ -230,6 +230,7 @@ class Ctx:
         self.work = WORK / pid
         shutil.rmtree(self.work, ignore_errors=True)
         self.work.mkdir(parents=True, exist_ok=True)
+        shutil.rmtree(WORK / "violations" / pid, ignore_errors=True)
         self.t0 = time.time()
         self.violations = []      # unlisted P-clause failures
         self.known_hits = {}      # kf id -> count
@@ -336,7 +337,7 @@ class Ctx:
         if nviol:
             rp = self.work / "replay"
             rp.mkdir(exist_ok=True)
-            keep = VERIF / "work" / "violations" / self.pid
+            keep = WORK / "violations" / self.pid
             keep.mkdir(parents=True, exist_ok=True)
             seen = set()
             n = 0
